@@ -5,5 +5,5 @@ THEOREMS = []
 TRUSTED = []
 ASSUMPTIONS = []
 LEVEL_TEXT = "Lean theorems: MPIR's integer layout equals the C99 specification function for all flag/width/precision combinations; bounded writer never exceeds size and returns full length; asprintf block size. Three-way differential run gmp_snprintf vs model vs glibc over the full cross product."
-LEVEL_NOTE = "Length modifiers inside directive lists, the whole-format locality statement and the %F layout (three deviations from C pinned) rest on the correspondence run."
+LEVEL_NOTE = "Length modifiers inside directive lists, the whole-format locality statement, the sufficiency of the digit count requested by doprntf.c and the %F round trip rest on the correspondence run; four deviations of %F from C99 are explicit in the specification function."
 PLACEHOLDER = True
